@@ -1,4 +1,5 @@
 import St4sd.Model.Layer
+import St4sd.Model.DslLoad
 /-!
 Witnesses for C15.
 
@@ -37,5 +38,27 @@ occurrence is (`Props.C15.dedup_transparent`). -/
 theorem keep_first_is_not_transparent :
     dget (layerMany ((dedupKeepFirst [0, 1, 0]).map content)) (none, "v".toList)
       ≠ dget (layerMany ([0, 1, 0].map content)) (none, "v".toList) := by decide
+
+/-! DSL 2.0: `hash_environment` must read the environment as a mapping.  With the identity built in the insertion
+order of the entries (`hashEnvUnsorted`, no `sorted`) the same two components get one environment or two,
+depending on the order in which the second wrote the same two variables. -/
+section Dsl
+open St4sd.DslLoad
+
+def envAB : Env := [("ALPHA".toList, some "1".toList), ("BETA".toList, some "/opt/tool/bin".toList)]
+def envBA : Env := [("BETA".toList, some "/opt/tool/bin".toList), ("ALPHA".toList, some "1".toList)]
+
+theorem envBA_is_envAB_reordered : envAB.Perm envBA := List.Perm.swap _ _ _
+
+theorem unsorted_identity_depends_on_key_order :
+    assignEnvsWith hashEnvUnsorted [] [.dict envAB, .dict envAB] = [.env 0, .env 0] ∧
+    assignEnvsWith hashEnvUnsorted [] [.dict envAB, .dict envBA] = [.env 0, .env 1] := by decide
+
+/-- the code as it is (sorted keys) gives one environment in both cases -/
+theorem sorted_identity_does_not :
+    assignEnvs [] [.dict envAB, .dict envAB] = [.env 0, .env 0] ∧
+    assignEnvs [] [.dict envAB, .dict envBA] = [.env 0, .env 0] := by decide
+
+end Dsl
 
 end St4sd.C15.Witness
